@@ -186,7 +186,7 @@ func richSubtitles(r *fw.Rand) *astisub.Subtitles {
 	if r.P(5, 6) {
 		cd := time.Date(2019, 3, 4, 0, 0, 0, 0, time.UTC)
 		mnc := 38
-		md := &astisub.Metadata{Title: fw.Pick(r, []string{"T", "T", "A title that is a good deal longer than thirty-two bytes", "Épisode n° 12 «été» — l'intégrale restaurée"}), Language: fw.Pick(r, []string{"", "english", "french"}), TTMLCopyright: "C", Comments: []string{"c1"}, SSAScriptType: fw.Pick(r, []string{"v4.00", "v4.00+", ""}),
+		md := &astisub.Metadata{Title: fw.Pick(r, []string{"T", "T", "A title that is a good deal longer than thirty-two bytes", "Épisode n° 12 «été» — l'intégrale restaurée"}), Language: fw.Pick(r, []string{"", "english", "french", "norwegian", "chinese", "japanese"}), TTMLCopyright: "C", Comments: []string{"c1"}, SSAScriptType: fw.Pick(r, []string{"v4.00", "v4.00+", ""}),
 			Framerate: fw.Pick(r, []int{0, 25, 30}), STLDisplayStandardCode: fw.Pick(r, []string{"", "0", "1"}), STLMaximumNumberOfDisplayableCharactersInAnyTextRow: &mnc}
 		switch r.Intn(5) {
 		case 0:
@@ -203,7 +203,8 @@ func richSubtitles(r *fw.Rand) *astisub.Subtitles {
 			}
 		}
 		if r.Bool() {
-			md.WebVTTTimestampMap = &astisub.WebVTTTimestampMap{Local: time.Second, MpegTS: 900000}
+			// (a packager that has been running for days hands over clock values beyond 33 bits)
+			md.WebVTTTimestampMap = &astisub.WebVTTTimestampMap{Local: time.Second, MpegTS: fw.Pick(r, []int64{900000, 900000, 1<<33 + 5, 1 << 40})}
 		}
 		s.Metadata = md
 	}
